@@ -1,0 +1,24 @@
+//go:build verif
+// +build verif
+
+// Contracts for package hash, read only by the verifier in /verif (build tag verif).
+// This file contains no code.
+
+package hash
+
+//@ func rol32 props C08
+//@   inline
+
+//@ func Hash3Words props C08
+//@   inline
+
+// The IPv4 fragment key reads only identification, protocol, source and destination of the
+// header: equal (id, protocol, src, dst) give equal keys.
+//@ func IPv4FragmentHash props C08 C07
+//@   requires len(h) >= 20
+//@   ensures result == Hash3Words(uint32(be16(h, 4)) << 16 | uint32(h[9]),
+//@             uint32(h[12]) | uint32(h[13]) << 8 | uint32(h[14]) << 16 | uint32(h[15]) << 24,
+//@             uint32(h[16]) | uint32(h[17]) << 8 | uint32(h[18]) << 16 | uint32(h[19]) << 24, hashIV)
+
+//@ func IPv6FragmentHash props C08 C07
+//@   requires len(h) >= 40 && len(f) >= 8
